@@ -28,3 +28,13 @@ Definition kcase_ok (c : kcase) : bool :=
   zlist_eqb (flat_kv (fst (kexport s))) (flat_kv (kc_recs' c)) && (snd (kexport s) =? kc_last' c) &&
   (* the well-formedness the round-trip theorem assumes, checked on the real data *)
   increasing_b (kc_recs c) && forallb (fun x => fst x <=? kc_last c) (kc_recs c) && (total s =? sum_vals (kc_recs c)).
+
+(* lockup genesis import: the modelled InitGenesis on the real exported locks / synthetic locks, against the accumulation
+   values the real re-imported chain answers (GetPeriodLocksAccumulation) for (denom, duration) probes *)
+From Osmo Require Import C19.LockupGenesis.
+Record lcase := mkLCase { lc_g : lgenesis; lc_probes : list (Z * Z * Z) }.      (* denom, duration, observed value *)
+Definition lcase_ok (c : lcase) : bool :=
+  match import_lockup (export_lockup (lc_g c)) with
+  | Some t => forallb (fun p => tree_acc t (fst (fst p)) (snd (fst p)) =? snd p) (lc_probes c)
+  | None => false
+  end.
